@@ -79,7 +79,11 @@ func ParseSchema(source string) (*Schema, error) {
 
 				paramComments[pname] = strings.TrimSpace(pcomment)
 			default:
-				return nil, fmt.Errorf("unknown comment type: %s", ctype)
+				// common comment without annotation: nothing to read from it
+				cur.Unread(len(ctype))
+				if _, err := cur.ReadAt('\n'); err != nil {
+					return nil, fmt.Errorf("read comment: %w", err)
+				}
 			}
 
 			cur.Skip(1)
